@@ -47,6 +47,9 @@ func fillDiam(t *rapid.T, v reflect.Value, depth int, st *fillStats) {
 	switch x := v.Interface().(type) {
 	case datatype.Unsigned32:
 		k := rapid.SampledFrom([]uint32{0, 1, 1 << 31, 1<<32 - 1, 7, 4006}).Draw(t, "u32")
+		if rapid.Bool().Draw(t, "u32any") {
+			k = rapid.Uint32().Draw(t, "u32v")
+		}
 		if k == 1<<32-1 || k == 1<<31 {
 			st.extreme++
 		}
@@ -54,6 +57,9 @@ func fillDiam(t *rapid.T, v reflect.Value, depth int, st *fillStats) {
 		return
 	case datatype.Unsigned64:
 		k := rapid.SampledFrom([]uint64{0, 1, 1 << 31, 1 << 32, 1<<63 - 1, 1 << 63, 1<<64 - 1, 12345}).Draw(t, "u64")
+		if rapid.Bool().Draw(t, "u64any") {
+			k = rapid.Uint64().Draw(t, "u64v")
+		}
 		if k >= 1<<63-1 {
 			st.extreme++
 		}
@@ -61,6 +67,9 @@ func fillDiam(t *rapid.T, v reflect.Value, depth int, st *fillStats) {
 		return
 	case datatype.Integer32:
 		k := rapid.SampledFrom([]int32{0, 1, -1, 1<<31 - 1, -1 << 31, -7}).Draw(t, "i32")
+		if rapid.Bool().Draw(t, "i32any") {
+			k = rapid.Int32().Draw(t, "i32v")
+		}
 		if k == 1<<31-1 || k == -1<<31 {
 			st.extreme++
 		}
@@ -68,6 +77,9 @@ func fillDiam(t *rapid.T, v reflect.Value, depth int, st *fillStats) {
 		return
 	case datatype.Integer64:
 		k := rapid.SampledFrom([]int64{0, 1, -1, 1<<63 - 1, -1 << 63, -123456789012}).Draw(t, "i64")
+		if rapid.Bool().Draw(t, "i64any") {
+			k = rapid.Int64().Draw(t, "i64v")
+		}
 		if k == 1<<63-1 || k == -1<<63 {
 			st.extreme++
 		}
